@@ -213,6 +213,23 @@ def witness_cases(ctx, env, flags):
             c.run(0)
         scenario(f"noprov-mid-{kind}", noprov_mid)
 
+    # the same programs transferred to a fresh repository (real `_sync_records` / export + import), then the deepest
+    # task is edited and the program runs in the destination: the imported shallow node looks like a leaf (its
+    # children are not recorded) and must not be served
+    for kind, how in (("option", "sync"), ("call", "file"), ("no_prov", "sync")):
+        def noprov_xfer(c, kind=kind, how=how):
+            c.prog = ctl_db.NoProvMidProgram(kind, ns="gcnpx")
+            c.sig_override = ("C03-imported-node-partial-subtree-set",
+                              "after a record transfer a shallow call node whose children recorded no provenance has a "
+                              "non-empty but incomplete subtree-task set in the destination and is served after a task "
+                              "beneath it was edited")
+            c.run(0)
+            c.transfer(0, 1, how=how)
+            c.run(1)
+            c.prog.edit(0)
+            c.run(1)
+        scenario(f"noprov-mid-{kind}-transfer-{how}", noprov_xfer)
+
     # shallow parent over prov=False children: record_call_node itself records the children's Task values (one
     # commit each) between the CallNode and its subtree rows.  Every commit of that record_call_node as crash point
     # and as fault position; then each child is edited in turn on a copy of the resulting database.
